@@ -18,8 +18,9 @@ fn cfg() -> GenCfg {
 pub fn check(c: &Case, known: &Known, hazard: bool) -> Outcome {
     let (mut out, det) = c01::judge(c, known);
     if hazard {
-        if let Verdict::Fail(..) = &out.verdict {
-            if let Some((id, what)) = c01::attribute(&c.flags, known) {
+        if let Verdict::Fail(_, detail) = &out.verdict {
+            let failure = detail.get("error").and_then(|e| e.as_str()).unwrap_or("").to_string();
+            if let Some((id, what)) = c01::attribute_with(&c.flags, known, &failure) {
                 out.verdict = Verdict::Known(id, what);
             }
         }
